@@ -154,7 +154,7 @@ end
 
 mutual
 partial def Value.toSx : Value → Sx
-  | .num x => .list [.atom "num", .atom (hex64 x.bits)]
+  | .num x => .list [.atom "num", .atom (if x.isNaN then "7ff8000000000000" else hex64 x.bits)]
   | .bool b => .list [.atom "bool", .atom (if b then "t" else "f")]
   | .null => .list [.atom "null"]
   | .str s => .list [.atom "str", .atom (encStr s)]
